@@ -1323,8 +1323,14 @@ impl Visitor<Diagnostic> for LibraryRenderer {
         self.newline();
 
         self.indent();
-        for item in node.body.iter() {
-            self.visit_stmt_kind(item)?;
+        if node.body.is_empty() {
+            self.write_ws("(* empty *)");
+            self.write_ws(";");
+            self.newline();
+        } else {
+            for item in node.body.iter() {
+                self.visit_stmt_kind(item)?;
+            }
         }
         self.outdent();
 
@@ -1470,8 +1476,14 @@ impl Visitor<Diagnostic> for LibraryRenderer {
         self.newline();
 
         self.indent();
-        for item in node.body.iter() {
-            self.visit_stmt_kind(item)?;
+        if node.body.is_empty() {
+            self.write_ws("(* empty *)");
+            self.write_ws(";");
+            self.newline();
+        } else {
+            for item in node.body.iter() {
+                self.visit_stmt_kind(item)?;
+            }
         }
         self.outdent();
 
@@ -1489,8 +1501,14 @@ impl Visitor<Diagnostic> for LibraryRenderer {
         self.newline();
 
         self.indent();
-        for item in node.body.iter() {
-            self.visit_stmt_kind(item)?;
+        if node.body.is_empty() {
+            self.write_ws("(* empty *)");
+            self.write_ws(";");
+            self.newline();
+        } else {
+            for item in node.body.iter() {
+                self.visit_stmt_kind(item)?;
+            }
         }
         self.outdent();
 
